@@ -176,7 +176,9 @@ def shapes(tier):
 def cases(tier, seed):
     kinds = [("num", False), ("tuple2", True), ("tuple2", False),
              ("tuple3", True), ("array", False), ("list", False),
-             ("str", False)]
+             ("str", False),
+             # several outputs returned as an array / a list, split
+             ("array", True), ("list", True)]
     j = 0
     for shp in shapes(tier):
         k = len(shp)
@@ -340,7 +342,7 @@ def reference(case, names, vals, consts):
         return tuple(nested(getter, depth + 1, prefix + (v,))
                      for v in vals[depth])
 
-    ncomp = {"tuple2": 2, "tuple3": 3}.get(kind)
+    ncomp = {"tuple2": 2, "tuple3": 3, "array": 3, "list": 2}.get(kind)
     if case["flat"]:
         if case["split"]:
             return tuple(tuple(leaf[p][c] for p in pts) for c in range(ncomp))
